@@ -17,6 +17,7 @@ import (
 	"fmt"
 	"hash/fnv"
 	"os"
+	osexec "os/exec"
 	"reflect"
 	"sort"
 	"strconv"
@@ -237,8 +238,8 @@ func runEntry(i int, f *alpha.Fix) (res []byte, panicked string) {
 	return alpha.Entries[i].Run(f), ""
 }
 
-func modeFresh(i int) {
-	f := alpha.NewFix(0)
+func modeFresh(i, variant int) {
+	f := alpha.NewFix(variant)
 	res, p := runEntry(i, f)
 	if p != "" {
 		fmt.Println("panic:" + p)
@@ -272,7 +273,9 @@ func modePurity(shard, nshards, variants int) {
 				continue
 			}
 			if pkgState() != st {
-				out.fail("package-state-changed:"+e.Name, fmt.Sprintf("%s changed package-level state of the library", e.Name), c)
+				// Not a violation by itself (a correctly keyed, synchronised cache is
+				// allowed): it is what makes the history and schedule passes matter.
+				out.Counters["calls_that_changed_package_state"]++
 			}
 			// repeated calls with equal arguments: bit-identical
 			for rep := 0; rep < 8; rep++ {
@@ -348,6 +351,42 @@ func names(seq []int) []string {
 		s = append(s, alpha.Entries[e].Name)
 	}
 	return s
+}
+
+// modeVarHist: the same entry on two different fixture variants in a row (every
+// ordered pair of variants): the second call must return what it returns in a
+// fresh process. This is the history a cache keyed too coarsely gets wrong.
+func modeVarHist(shard, nshards int, fresh [][]string) {
+	V := len(fresh[0])
+	idx := 0
+	for e := range alpha.Entries {
+		for v1 := 0; v1 < V; v1++ {
+			for v2 := 0; v2 < V; v2++ {
+				if idx%nshards != shard {
+					idx++
+					continue
+				}
+				idx++
+				out.Evals++
+				out.Nontrivial++
+				c := Case{Mode: "varhist", Entry: e, Name: alpha.Entries[e].Name, Seq: []int{v1, v2}}
+				runEntry(e, alpha.NewFix(v1))
+				res, p := runEntry(e, alpha.NewFix(v2))
+				out.Transitions += 2
+				want, _ := hex.DecodeString(fresh[e][v2])
+				if p != "" {
+					if fresh[e][v2] != "panic:"+p {
+						out.fail("panic:"+alpha.Entries[e].Name, fmt.Sprintf("%s panicked on fixture variant %d after a call on variant %d: %s", alpha.Entries[e].Name, v2, v1, p), c)
+					}
+					continue
+				}
+				if !bytes.Equal(res, want) {
+					out.fail("history-dependent:"+alpha.Entries[e].Name, fmt.Sprintf("%s on fixture variant %d returned %s after a call on variant %d, but %s in a fresh process", alpha.Entries[e].Name, v2, alpha.Describe(res), v1, alpha.Describe(want)), c)
+				}
+				out.Validated++
+			}
+		}
+	}
 }
 
 // --- cooperative scheduler ----------------------------------------------------------
@@ -710,11 +749,23 @@ func modeReplay(js string, fresh [][]byte) {
 			out.fail("input-modified:"+e.Name, "input modified", c)
 		}
 		if pkgState() != st {
-			out.fail("package-state-changed:"+e.Name, fmt.Sprintf("changed: %v", changedVars(before, pkgStateText())), c)
+			out.Notes = append(out.Notes, fmt.Sprintf("package state changed: %v", changedVars(before, pkgStateText())))
 		}
 		for rep := 0; rep < 8; rep++ {
 			if again, _ := runEntry(c.Entry, f); !bytes.Equal(first, again) {
 				out.fail("nondeterministic:"+e.Name, "different result on repetition", c)
+			}
+		}
+	case "varhist":
+		runEntry(c.Entry, alpha.NewFix(c.Seq[0]))
+		a, _ := runEntry(c.Entry, alpha.NewFix(c.Seq[1]))
+		// the reference: the same call in this process before anything else was asked is not
+		// available any more, so compare with the value recorded by a fresh process
+		out2, err := osexec.Command(os.Args[0], "fresh", strconv.Itoa(c.Entry), strconv.Itoa(c.Seq[1])).Output()
+		if err == nil {
+			want, _ := hex.DecodeString(strings.TrimSpace(string(out2)))
+			if !bytes.Equal(a, want) {
+				out.fail("history-dependent:"+alpha.Entries[c.Entry].Name, "differs from the fresh-process result", c)
 			}
 		}
 	case "history":
@@ -763,8 +814,22 @@ func main() {
 	}
 	switch os.Args[1] {
 	case "fresh":
-		modeFresh(atoi(os.Args[2]))
+		v := 0
+		if len(os.Args) > 3 {
+			v = atoi(os.Args[3])
+		}
+		modeFresh(atoi(os.Args[2]), v)
 		return
+	case "varhist":
+		loadFresh()
+		b, err := os.ReadFile(os.Getenv("C20_FRESHVAR"))
+		if err != nil {
+			fmt.Fprintln(os.Stderr, "C20_FRESHVAR:", err)
+			os.Exit(2)
+		}
+		var fv [][]string
+		json.Unmarshal(b, &fv)
+		modeVarHist(atoi(os.Args[2]), atoi(os.Args[3]), fv)
 	case "count":
 		fmt.Println(len(alpha.Entries))
 		return
